@@ -316,6 +316,19 @@ func c17Fixed() []string {
 		big3.WriteString("x = " + strconv.Itoa(i) + "\n")
 	}
 	out = append(out, big3.String())
+	// programs whose code size crosses the 65535-byte limit of the two-byte jump operands WITH THEIR LAST
+	// statement (a false `if`, an `if`/`else`, a `while` that is left at once): rejected, or well formed
+	for _, n := range []int{6500, 6540, 6548, 6550, 6551, 6552, 6553, 6554, 6555, 6556, 6560, 6600, 7000, 13200} {
+		var body strings.Builder
+		for i := 0; i < n; i++ {
+			body.WriteString("    x = x + 1\n")
+		}
+		out = append(out, "x := 1\nif x == 2\n"+body.String()+"end\n")
+		if n%4 == 0 {
+			out = append(out, "x := 1\nif x == 2\n    x = 0\nelse\n"+body.String()+"end\n",
+				"x := 1\nwhile x == 2\n"+body.String()+"end\n")
+		}
+	}
 	return out
 }
 
